@@ -28,8 +28,11 @@ MANIFEST = {
             "latest message id; a Reset of an earlier NON notification is ignored by the code (open finding "
             "rst_of_superseded_notification_ignored, decided witness). (ii) notification bodies needing block-wise transfer: "
             "the lg_xmit deferral branch of coap_notify_observers is NOT in M; that scenario is judged on the implementation's "
-            "trace by the oracle only (see design/C11.md), block transfer itself is C09. (iii) the < 2^23 hypothesis of the "
-            "ordering theorem is stated on the ghost version counter (number of effective changes). (iv) 'eventually' is the "
+            "trace by the oracle only (corpus/C11/blockwise.txt, tag latest-not-notified-blockwise, see design/C11.md), block transfer "
+            "itself is C09. (iii) the < 2^23 hypothesis of "
+            "observe_strictly_increasing_run is on the ghost version counter (number of effective changes); "
+            "observe_strictly_increasing_run_events states it on the events (fewer than 2^23 chg/del events in the run). (iv) "
+            "'eventually' is the "
             "step-level progress statement under the explicit fairness hypothesis, not a temporal-logic theorem over infinite "
             "fair schedules. Retransmissions (tag rtx) of a CON written before a deregistration are not cancelled by "
             "coap_delete_observer and are not counted as new notifications. Trusted: Lean kernel (+ propext, Classical.choice, "
@@ -54,22 +57,35 @@ REQUIRED_THEOREMS = ["reregistration_replaces", "observe_strictly_increasing", "
                      "deregistration_invariants_init", "stale_entry_keeps_wakeup", "clean_entry_holds_latest",
                      "latest_eventually_notified_run", "fair_when_acknowledged", "fair_when_non", "wake_holds_initially",
                      "fair_when_first_stale", "latest_eventually_notified_first_stale", "observe_strictly_increasing_run_init",
-                     "no_notification_after_session_loss_run_any"]
+                     "no_notification_after_session_loss_run_any", "reachable_invariants_init",
+                     "observe_strictly_increasing_run_events"]
 RULE = ("event histories (8..90 events + optional fair tail) over 1..3 observable resources (default / NOTIFY_CON / NOTIFY_NON / "
         "NOTIFY_NON_ALWAYS, Observe counter started at 0, mid-range, and just below 2^23 / 2^24 so that it wraps) and 1..4 real "
         "clients: register / re-register (same token, other token same query, other query) / Observe=1 cancel / plain GET with CON "
         "and NON requests, bursts of changes between I/O steps, I/O steps, time advances across every retransmission deadline and "
         "the idle session timeout, ACK or RST of the k-th most recent notification (never = loss, later = delay, again = "
-        "duplicate), handler starts answering 4.04, server-side session loss, resource deletion; non-trivial = a history in which "
-        "the server sent at least one notification")
+        "duplicate), handler starts answering 4.04, server-side session loss, resource deletion; about 12 % of the histories use a "
+        "resource whose representation needs block-wise transfer (body of 2.5 blocks at SZX none/0/1/2/4/6, default or NOTIFY_CON "
+        "flags): register, change, I/O step (first block of the notification), the client fetches 0..all further blocks with GET "
+        "Block2 num=k and no Observe option, further changes within 2 s of the last block request while blocks are outstanding "
+        "(libcoap's lg_xmit deferral branch), background events, then a block-wise fair tail (fetch the rest or go silent, ACK "
+        "every CON, 5 x 2001 ms with the I/O loop, io io io); these lines are judged by the oracle only; non-trivial = a history "
+        "in which the server sent at least one notification")
 TRUSTED_BASE = ["Lean 4.33 kernel; axioms allowed: propext, Classical.choice, Quot.sound (audited per theorem each run)",
                 "T1 extractor extract/obsconst.c (constants as compiled, the counter's successor function by evaluation)",
                 "harness/observe.c on harness/sim_core.h (virtual clock, scripted network), generators, string comparison",
                 "props/c11_oracle.py: the property judged on the implementation's trace",
-                "M (CoapVerif/Model/Observe.lean) is a hand transcription; checked against the compiled code only on the cases run"]
+                "M (CoapVerif/Model/Observe.lean) is a hand transcription; checked against the compiled code only on the cases run",
+                "Driver/Observe.lean answers block-wise lines with a fixed marker instead of a replay (recognised from the input line)"]
 ASSUMPTIONS = ["the observe cache key (SHA-256 over the request's cache-key options) is injective on the option lists used",
                "allocation failures and send errors inside the notify loop are not modelled (C18)",
-               "no block-wise notification bodies (C09), UDP only, one endpoint, NSTART = 1 as extracted",
+               "block-wise notification bodies: lg_xmit and the deferral of a notification behind a block-wise transfer in progress "
+               "are not in M; such histories are judged on the implementation's trace by the oracle only, block transfer itself "
+               "(block contents, ETag, sizes) is C09; UDP only, one endpoint, NSTART = 1 as extracted",
+               "fairness for block-wise histories: the server may hold a notification back while anything with a Block2 option went "
+               "to the same client within the last 2000 ms (libcoap's window, constant BLOCK_WAIT_MS in the oracle, not "
+               "T1-extracted); afterwards, with no CON outstanding and the I/O loop run, the first block of the latest state must "
+               "have been sent",
                "a token used by a client on two resources at once, or re-used with another query, makes 'the observation' ambiguous: "
                "the oracle then follows the server's table for that token (the tie M = I still covers it)",
                "compiled Lean definitions agree with the kernel's reading of them",
@@ -181,10 +197,10 @@ def gen_block_history(rng):
     nres = rng.choice([1, 1, 1, 2])
     ncli = rng.choice([1, 1, 2, 3])
     szx = [rng.choice([None, 0, 0, 0, 1, 2, 4, 6]) for _ in range(nres)]
-    kinds = ["b"] + [rng.choice("bbdc") for _ in range(nres - 1)]
+    kinds = [rng.choice("bbbB")] + [rng.choice("bbBdc") for _ in range(nres - 1)]
     rng.shuffle(kinds)
-    rs = ",".join("%s%d%s" % (m, rng.choice(STARTS), "/%d" % z if m == "b" and z is not None else "") for m, z in zip(kinds, szx))
-    bidx = [r for r in range(nres) if kinds[r] == "b"]
+    rs = ",".join("%s%d%s" % (m, rng.choice(STARTS), "/%d" % z if m in "bB" and z is not None else "") for m, z in zip(kinds, szx))
+    bidx = [r for r in range(nres) if kinds[r] in "bB"]
     mids = [rng.randrange(0, 65536) for _ in range(ncli)]
     obs = []          # (client, resource, token index, query) registered by the scripted part
     evs = []
